@@ -1455,6 +1455,9 @@ class AnsiString:
             self._s = obj._s
             self._fmts = obj._fmts
             return self
+        elif obj is self:
+            # Nothing was replaced - still return a new object like every other non-inplace call
+            return self.copy()
         else:
             return obj
 
